@@ -71,6 +71,7 @@ func c18Canary(db string) string { return "C18CANARY-" + db + "-x" }
 type c18Rpc struct {
 	svcFull, svc, wire, handler string
 	stream, cliStream           bool
+	srvStream                   bool // server-streaming flag of the grpc.StreamDesc (c18streams.go)
 	in, out                     protoreflect.MessageType
 }
 
@@ -88,7 +89,7 @@ func c18Rpcs() ([]c18Rpc, error) {
 			return nil, fmt.Errorf("%s: not a service", sd.ServiceName)
 		}
 		short := sd.ServiceName[strings.LastIndex(sd.ServiceName, ".")+1:]
-		add := func(wire string, stream, cli bool) error {
+		add := func(wire string, stream, cli bool, srvS ...bool) error {
 			md := svd.Methods().ByName(protoreflect.Name(wire))
 			if md == nil {
 				return fmt.Errorf("%s/%s: no method descriptor", sd.ServiceName, wire)
@@ -101,7 +102,7 @@ func c18Rpcs() ([]c18Rpc, error) {
 			if err != nil {
 				return err
 			}
-			out = append(out, c18Rpc{svcFull: sd.ServiceName, svc: short, wire: wire, handler: strings.ToUpper(wire[:1]) + wire[1:], stream: stream, cliStream: cli, in: in, out: o})
+			out = append(out, c18Rpc{svcFull: sd.ServiceName, svc: short, wire: wire, handler: strings.ToUpper(wire[:1]) + wire[1:], stream: stream, cliStream: cli, srvStream: len(srvS) > 0 && srvS[0], in: in, out: o})
 			return nil
 		}
 		for _, m := range sd.Methods {
@@ -110,7 +111,7 @@ func c18Rpcs() ([]c18Rpc, error) {
 			}
 		}
 		for _, s := range sd.Streams {
-			if err := add(s.StreamName, true, s.ClientStreams); err != nil {
+			if err := add(s.StreamName, true, s.ClientStreams, s.ServerStreams); err != nil {
 				return nil, err
 			}
 		}
@@ -1373,6 +1374,7 @@ func runC18(r *hx.Result, rng *hx.Rng, thorough bool, replay string) error {
 	r.Extra["time_in_rpc_under_test_s"] = c18TInvoke.Seconds()
 	r.Extra["time_in_state_digest_s"] = c18TDigest.Seconds()
 	r.Extra["time_in_logins_s"] = c18TLogin.Seconds()
+	r.Extra["time_in_open_stream_scenarios_s"] = c18TStreams.Seconds()
 	r.Extra["rpcs_in_descriptors"] = len(rpcs)
 	r.Extra["control_relogins"] = c18Relogins
 	type hd struct {
@@ -1463,7 +1465,6 @@ func c18AuthOn(r *hx.Result, rng *hx.Rng, rpcs []c18Rpc, thorough bool) (rerr er
 	}
 	var expiring []*c18Cred
 	expRoles := []string{"idle", "sysadmin"}
-	idleSince := time.Now()
 	for _, role := range expRoles {
 		ce, err := e.sessionFor(e.users[role], c18DB1)
 		if err != nil {
@@ -1471,6 +1472,20 @@ func c18AuthOn(r *hx.Result, rng *hx.Rng, rpcs []c18Rpc, thorough bool) (rerr er
 		}
 		expiring = append(expiring, ce)
 	}
+	// long-lived streams (c18streams.go): their own user (Admin on the target database); one session of that user opens
+	// every streaming RPC now and is then left idle until the session timeout has passed
+	if err := e.createUser(c18StrmRole, "c18strm", auth.PermissionAdmin, c18DB1); err != nil {
+		return err
+	}
+	if err := e.createUser(c18StrmRole+"idle", "c18strmidle", auth.PermissionAdmin, c18DB1); err != nil {
+		return err
+	}
+	expStrm, err := e.sessionFor(e.users[c18StrmRole+"idle"], c18DB1)
+	if err != nil {
+		return err
+	}
+	expOpen := e.openStreams(expStrm, 5*time.Second)
+	idleSince := time.Now()
 
 	// ---- 1. no credentials at all
 	if err := e.batch(&c18Cred{kind: "none", state: "valid"}, "anonymous", "no-credentials", streams); err != nil {
@@ -1645,9 +1660,19 @@ func c18AuthOn(r *hx.Result, rng *hx.Rng, rpcs []c18Rpc, thorough bool) (rerr er
 			return err
 		}
 	}
+	// long-lived streams that outlive a withdrawal of access (every streaming RPC, quick and thorough)
+	if err := e.streamWithdrawals(thorough); err != nil {
+		return err
+	}
 	// sessions left idle beyond the server's session timeout
 	if rest := c18SessIdle + 800*time.Millisecond - time.Since(idleSince); rest > 0 {
 		time.Sleep(rest)
+	}
+	expStrm.state, expStrm.why = "stale", "expired"
+	e.continueStreams(expOpen, expStrm, "session-expired", []string{fmt.Sprintf("nothing is sent for %s: the session exceeds the server's MaxSessionInactivityTime (%s) and the session guard removes it", time.Since(idleSince).Round(time.Second), c18SessIdle)}, 5*time.Second)
+	r.Count("stream.scenario.session-expired.session")
+	if e.last, err = e.digest(true); err != nil {
+		return err
 	}
 	for i, ce := range expiring {
 		ce.state, ce.why = "stale", "expired"
